@@ -293,8 +293,11 @@ def addon_sequence_schedules(rng):
     def T(views, filt=("none",), res=(), entry=(), par=False):
         return Sys(par, list(views), filt, list(res), list(entry))
 
-    for variant in range(8):
+    for variant in (range(8, 12) if "--addonseq2" in sys.argv else range(8)):
         a, b, c, d, e = rng.sample(range(len(COMPS)), 5)
+        # The contested components must carry data (a zero-sized one cannot show a wrong overlap).
+        while COMPS[a] == "Z" or COMPS[b] == "Z":
+            a, b, c, d, e = rng.sample(range(len(COMPS)), 5)
         r = rng.randrange(len(RES))
         s1_plain = [T([(K_MUT, a)]), T([(K_MUT, b)], ("has", c))]
         s1_filtered = [T([(K_MUT, a)], ("has", d)), T([(K_MUT, b)])]
@@ -313,6 +316,18 @@ def addon_sequence_schedules(rng):
             tasks = s1_filtered + [T([(K_MUT, a)], ("not", ("has", d))), T([(K_MUT, e)], par=True), T([(K_MUT, b)], ("has", a))]
         elif variant == 6:
             tasks = s1_plain + [T([(K_REF, e)], entry=[(K_MUT, a)]), T([(K_REF, b)], ("has", a))]
+        elif variant >= 8:
+            # The second candidate conflicts with the running stage ONLY on tables which the first,
+            # refused, candidate touched compatibly before it met its conflict: whatever was recorded
+            # for the refused one must be undone exactly.
+            # The running stage claims every table (an optional view matches all of them), so in a
+            # crowded world it holds more than 16; its second task and the second candidate are
+            # narrowed by filters to two tables resp. one table.
+            s1 = [T([(K_OPTMUT, a)]), T([(K_MUT, b)], ("and", ("has", c), ("and", ("has", d), ("has", e))))]
+            only_there = ("and", ("has", b), ("and", ("not", ("has", c)), ("and", ("has", d), ("has", e))))
+            first = [T([(K_REF, b)]), T([(K_OPT, b)], ("has", b)), T([(K_ID, None)], entry=[(K_REF, b)]), T([(K_REF, b)])][variant - 8]
+            second = T([(K_MUT, a)], only_there, par=(variant == 9))
+            tasks = s1 + ([first, T([(K_ID, None)], ("has", d)), second] if variant == 11 else [first, second])
         else:
             s1 = [T([(K_MUT, a)], res=[(K_MUT, r)]), T([(K_MUT, b)])]
             tasks = s1 + [T([(K_MUT, c)], res=[(K_REF, r)]), T([(K_REF, b)]), T([(K_MUT, e)], res=[(K_MUT, r)])]
@@ -458,7 +473,7 @@ def main():
         scheds = zero_view_schedules(rng)
     if "--shared" in sys.argv:
         scheds = shared_then_writer_schedules(rng)
-    if "--addonseq" in sys.argv:
+    if "--addonseq" in sys.argv or "--addonseq2" in sys.argv:
         scheds = addon_sequence_schedules(rng)
     while len(scheds) < nbins * per:
         nt = rng.choice([2, 3, 3, 4, 4, 5, 6])
